@@ -301,3 +301,41 @@ Definition ex_two_heads : state :=
                 mk_inst 1 Started [mk_head 1; mk_head 1] (Some 0) [] 0;
                 mk_inst 2 Started [mk_head 1] (Some 0) [] 0 ];
      queue := [] |}.
+
+(* ------------------------------------------------------------------------------------------ *)
+(* The outer loop of process_events: outgoing (non-action) events of one round are the input events
+   of the next round, so flows can answer each other forever (`echo: match Ping(); send Pong()`,
+   `back: match Pong(); send Ping()`) although every single run_to_completion ends.  What ends one
+   processing cycle is the cap `max_events` on the events handled per process_events CALL:
+       events_counter = 0
+       while input_events: new = []
+           for event in input_events:
+               events_counter += 1
+               if events_counter > max_events: return
+               run_to_completion (with the retry loop); new += outgoing
+           input_events = new
+   `per_round = true` models the counter being reset in every round (a regression). *)
+Section ProcessEvents.
+  Variables (St Ev : Type).
+  Variable rtc : St -> Ev -> St * list Ev.
+
+  Fixpoint pe_round (max cnt : nat) (st : St) (inp out : list Ev) : St * nat * list Ev * bool :=
+    match inp with
+    | [] => (st, cnt, out, false)
+    | e :: inp' =>
+        if Nat.ltb max (S cnt) then (st, S cnt, out, true)
+        else let '(st', o) := rtc st e in pe_round max (S cnt) st' inp' (out ++ o)
+    end.
+
+  Fixpoint pe (per_round : bool) (fuel max cnt : nat) (st : St) (inp : list Ev) : option St :=
+    match fuel with
+    | O => None
+    | S f =>
+        match inp with
+        | [] => Some st
+        | _ :: _ =>
+            let '(st', cnt', out, stopped) := pe_round max (if per_round then 0 else cnt) st inp [] in
+            if stopped then Some st' else pe per_round f max cnt' st' out
+        end
+    end.
+End ProcessEvents.
